@@ -230,11 +230,6 @@ func (h *Handler) commit() error {
 		}
 		verifhook.At("commit.temp_closed", h.path)
 
-		if Exists(h.path) {
-			if err := os.Remove(h.path); err != nil {
-				return err
-			}
-		}
 		verifhook.At("commit.removed", h.path)
 
 		if err := os.Rename(h.tempFile.path, h.path); err != nil {
